@@ -48,6 +48,7 @@ class SemiSupervisedOPF(SupervisedOPF):
         Y_train: np.array,
         X_unlabeled: np.array,
         I_train: Optional[np.array] = None,
+        I_unlabeled: Optional[np.array] = None,
     ) -> None:
         """Fits data in the semi-supervised classifier.
 
@@ -56,6 +57,7 @@ class SemiSupervisedOPF(SupervisedOPF):
             Y_train: Array of training labels.
             X_unlabeled: Array of unlabeled features.
             I_train: Array of training indexes.
+            I_unlabeled: Array of unlabeled indexes.
 
         """
 
@@ -69,7 +71,10 @@ class SemiSupervisedOPF(SupervisedOPF):
 
         current_n_nodes = self.subgraph.n_nodes
         for i, feature in enumerate(X_unlabeled):
-            node = Node(current_n_nodes + i, 0, feature)
+            if I_unlabeled is not None:
+                node = Node(I_unlabeled[i].item(), 0, feature)
+            else:
+                node = Node(current_n_nodes + i, 0, feature)
 
             self.subgraph.nodes.append(node)
 
